@@ -103,17 +103,26 @@ def run(facts, R):
             ok = a0[0] == "field" and a0[2] == "path" and a1[0] == "arg" and a1[1] == 2
             R.check(ok, "who-may-publish", cm.path, "rename(self.path, final_path)", "commit renames %s -> %s" % (render(a0), render(a1)), t.get("span"),
                     "rename(self.path, final_path)")
+    def _strip_conv(e):
+        """path conversions that keep the path: into(), to_path_buf(), to_owned(), clone(), as_ref(), PathBuf::from"""
+        for _ in range(6):
+            if e[0] == "call" and e[1].rsplit("::", 1)[-1] in ("into", "to_path_buf", "to_owned", "clone", "as_ref", "from", "as_path", "borrow", "deref") and len(e[2]) == 1:
+                e = e[2][0]
+            else:
+                break
+        return e
     cr = facts.body(TF + "::create")
     crs = Sym(cr)
     for i, t in cr.calls():
         if callee_matches(t["callee"], "std::fs::File::create"):
             a0 = crs.op(t["args"][0])
+            a0 = _strip_conv(a0)
             R.check(a0[0] == "arg" and a0[1] == 1, "who-may-publish", cr.path, "create(path)", "TempFile::create opens %s" % render(a0), t.get("span"))
     aggs = [(i, j, s) for i, j, s in cr.assigns() if s["rv"].get("agg") == "adt" and s["rv"]["adt"] == TF]
     for i, j, s in aggs:
         v = crs.rvalue(s["rv"])
         d = dict(v[3])
-        okp = is_call(d["path"], "to_path_buf") and d["path"][2][0][0] == "arg"
+        okp = _strip_conv(d["path"])[0] == "arg" and _strip_conv(d["path"])[1] == 1
         R.check(okp, "who-may-publish", cr.path, "guard.path = path", "TempFile remembers %s as its path" % render(d["path"]), s.get("span"))
 
     # ---------------- commit-order + provenance for each commit site ----------------------------------
@@ -230,7 +239,8 @@ def run(facts, R):
         a = ds.op(t["args"][0])
         fs = facts_at(dp, ds, facts, i)
         only_open = any((f["val"] is True and is_call(f["expr"], "is_some") and f["expr"][2][0][0] == "field" and f["expr"][2][0][2] == "file") or
-                        (f["val"] == "Some" and f["expr"][0] == "field" and f["expr"][2] == "file") for f in fs)
+                        (f["val"] == "Some" and f["expr"][0] == "field" and f["expr"][2] == "file") or
+                        (f["val"] == "Some" and is_call(f["expr"], "take") and f["expr"][2] and f["expr"][2][0][0] == "field" and f["expr"][2][0][2] == "file") for f in fs)
         R.check(a[0] == "field" and a[2] == "path" and only_open, "tempfile-raii", dp.path, "remove(self.path) iff handle open",
                 "Drop removes %s under %s" % (render(a), texts(fs)), t.get("span"), "remove_file(self.path) under file.is_some()")
     # commit: Err arm removes; Ok arm re-points path (so Drop cannot remove the published file) and handle is closed first
@@ -254,6 +264,12 @@ def run(facts, R):
                     % (nm.rsplit("::", 1)[-1], render(a)[:80]), t.get("span"), "%s(self.path)" % nm.rsplit("::", 1)[-1])
     closes = [(w["bb"], w["idx"]) for w in field_writes(facts, TF, "file") if w["body"] is cm and w["kind"] == "store"
               and csym.rvalue(w["rv"])[0] == "agg" and csym.rvalue(w["rv"])[2] == "None"]
+    # Option::take(&mut self.file) also leaves None behind (and hands the File out to be dropped)
+    for i, t in cm.calls():
+        if t["callee"]["name"] == "take" and "Option" in t["callee"]["path"] and t["args"]:
+            a = csym.op(t["args"][0])
+            if a[0] == "field" and a[2] == "file":
+                closes.append(term_pt(cm, i))
     ren = [term_pt(cm, i) for i, t in cm.calls() if callee_matches(t["callee"], "std::fs::rename")]
     R.check(closes and ren and must_cross(cm, [(0, 0)], ren, closes, after_start=False) is None, "tempfile-raii", cm.path, "handle closed before rename",
             "commit renames while Drop would still consider the temp file open (a later Drop would delete the published file)", cm.span)
